@@ -56,7 +56,13 @@ TraceNext ==
        /\ Observed(e)
 TraceSpec == TraceInit /\ [][TraceNext]_<<vars, l>>
 TraceNotStuck == l <= Len(Trace) => ENABLED TraceNext
-TraceAccepted == l = Len(Trace) + 1
+(* acceptance without ENABLED, also right for the nondeterministic as-is model: SOME branch consumed the
+   whole trace; otherwise the diameter is the index of the first event no branch could take *)
+TraceAccepted == /\ PrintT(<<"DEPTH", TLCGet("stats").diameter, Len(Trace)>>)
+                 /\ TLCGet("stats").diameter - 1 = Len(Trace)
+(* how counterexample states are printed (the association functions have thousands of entries) *)
+Compact == [l |-> l, pc |-> pc, cancelled |-> cancelled, fromBkt |-> fromBkt, afterObj |-> afterObj, gone |-> gone,
+            leaked |-> leaked, proj |-> Proj]
 (* the as-is model took the cursor-leak branch while explaining this trace *)
 KnownFindings == leaked => PrintT("KF C42-cursor-leak-after-container-removal")
 
